@@ -6,7 +6,8 @@
      SessionUp      listenLoop's per-connection goroutine: under l.mu, if l.closed = 1 the session is
                     closed on the spot, else wg.Add(1); l.sessions[session] = wg
      StreamIn s     the event loop of session s puts a new stream into acceptCh (session.go getStream)
-     Wrap s         AcceptStream returned a stream; newStreamWrapper: wg.Add(1)
+     Wrap s         AcceptStream returned a stream; under l.mu: if the session is still in l.sessions
+                    newStreamWrapper: wg.Add(1); else stream.Close() and return
      Enqueue s      the delivery select takes `l.backlog <- conn`; the goroutine goes on to re-check closeCh
      Lose s         the delivery select takes `<-l.closeCh`: the goroutine takes the conn aside to Close it
                     (`_ = conn.Close(); return`)
@@ -54,7 +55,8 @@ Record sess := {
   loop : loop_pc;      (* the per-session accept goroutine *)
   inq : nat;           (* streams waiting in session.acceptCh *)
   arrived : nat;       (* ghost: streams ever put into acceptCh *)
-  wrapped : nat }.     (* ghost: streams ever wrapped *)
+  wrapped : nat;       (* ghost: streams ever wrapped *)
+  refused : nat }.     (* ghost: streams closed unwrapped because the listener had released the session *)
 
 Record wrapper := { w_sess : nat; w_ord : nat (* ghost: k-th stream of its session *); w_closed : bool }.
 
@@ -76,7 +78,7 @@ Record state := {
 
 Definition dflt_sess : sess :=
   {| refs := 0; in_map := false; registered := false; sclosed := false; wg_zero := false;
-     loop := LExited; inq := 0; arrived := 0; wrapped := 0 |}.
+     loop := LExited; inq := 0; arrived := 0; wrapped := 0; refused := 0 |}.
 Definition dflt_wr : wrapper := {| w_sess := 0; w_ord := 0; w_closed := false |}.
 
 Definition init (c : nat) : state :=
@@ -93,7 +95,7 @@ Definition done1 (x : sess) : sess :=
   let r := refs x - 1 in
   {| refs := r; in_map := in_map x; registered := registered x;
      sclosed := sclosed x || (r =? 0); wg_zero := wg_zero x || (r =? 0);
-     loop := loop x; inq := inq x; arrived := arrived x; wrapped := wrapped x |}.
+     loop := loop x; inq := inq x; arrived := arrived x; wrapped := wrapped x; refused := refused x |}.
 Definition done_panics (x : sess) : bool := refs x - 1 <? 0.
 
 (* generic field updates (everything else unchanged) *)
@@ -158,14 +160,14 @@ Definition enabled (st : state) (e : event) : bool :=
 
 Definition with_loop (x : sess) (p : loop_pc) : sess :=
   {| refs := refs x; in_map := in_map x; registered := registered x; sclosed := sclosed x;
-     wg_zero := wg_zero x; loop := p; inq := inq x; arrived := arrived x; wrapped := wrapped x |}.
+     wg_zero := wg_zero x; loop := p; inq := inq x; arrived := arrived x; wrapped := wrapped x; refused := refused x |}.
 
 Definition release1 (n : nat) (f : nat -> sess) : nat -> sess :=
   fun k => let x := f k in
            if (k <? n)%nat && in_map x
            then let y := done1 x in
                 {| refs := refs y; in_map := false; registered := registered y; sclosed := sclosed y;
-                   wg_zero := wg_zero y; loop := loop y; inq := inq y; arrived := arrived y; wrapped := wrapped y |}
+                   wg_zero := wg_zero y; loop := loop y; inq := inq y; arrived := arrived y; wrapped := wrapped y; refused := refused y |}
            else x.
 Definition release_panics (n : nat) (f : nat -> sess) : bool :=
   existsb (fun k => in_map (f k) && done_panics (f k)) (seq 0 n).
@@ -188,9 +190,9 @@ Definition step (st : state) (e : event) : state :=
   | SessionUp =>
     let x := if lmark st
              then {| refs := 0; in_map := false; registered := false; sclosed := true; wg_zero := false;
-                     loop := LExited; inq := 0; arrived := 0; wrapped := 0 |}
+                     loop := LExited; inq := 0; arrived := 0; wrapped := 0; refused := 0 |}
              else {| refs := 1; in_map := true; registered := true; sclosed := false; wg_zero := false;
-                     loop := LAccepting; inq := 0; arrived := 0; wrapped := 0 |} in
+                     loop := LAccepting; inq := 0; arrived := 0; wrapped := 0; refused := 0 |} in
     {| nsess := S (nsess st); sess_of := updf (sess_of st) (nsess st) x; nwr := nwr st; wr := wr st;
        ncl := ncl st; cl_of := cl_of st; cap := cap st;
        backlog := backlog st; delivered := delivered st; closing := closing st; aclosed := aclosed st;
@@ -199,12 +201,19 @@ Definition step (st : state) (e : event) : state :=
     let x := sess_of st s in
     set_sess st s {| refs := refs x; in_map := in_map x; registered := registered x; sclosed := sclosed x;
                      wg_zero := wg_zero x; loop := loop x; inq := S (inq x); arrived := S (arrived x);
-                     wrapped := wrapped x |} false
+                     wrapped := wrapped x; refused := refused x |} false
   | Wrap s =>
     let x := sess_of st s in
+    if negb (in_map x) then
+      (* under l.mu: the session is no longer in l.sessions (the listener released it, or AcceptErr removed
+         it): no wg.Add; stream.Close(); return *)
+      set_sess st s {| refs := refs x; in_map := in_map x; registered := registered x; sclosed := sclosed x;
+                       wg_zero := wg_zero x; loop := LExited; inq := pred (inq x); arrived := arrived x;
+                       wrapped := wrapped x; refused := S (refused x) |} false
+    else
     let x' := {| refs := refs x + 1; in_map := in_map x; registered := registered x; sclosed := sclosed x;
                  wg_zero := wg_zero x; loop := LSelecting (nwr st); inq := pred (inq x); arrived := arrived x;
-                 wrapped := S (wrapped x) |} in
+                 wrapped := S (wrapped x); refused := refused x |} in
     {| nsess := nsess st; sess_of := updf (sess_of st) s x'; nwr := S (nwr st);
        wr := updf (wr st) (nwr st) {| w_sess := s; w_ord := wrapped x; w_closed := false |};
        ncl := ncl st; cl_of := cl_of st; cap := cap st;
@@ -241,14 +250,14 @@ Definition step (st : state) (e : event) : state :=
     let x := sess_of st s in
     set_sess st s {| refs := refs x; in_map := in_map x; registered := registered x; sclosed := true;
                      wg_zero := wg_zero x; loop := loop x; inq := inq x; arrived := arrived x;
-                     wrapped := wrapped x |} false
+                     wrapped := wrapped x; refused := refused x |} false
   | AcceptErr s =>
     let x := sess_of st s in
     if in_map x
     then let y := done1 x in
          set_sess st s {| refs := refs y; in_map := false; registered := registered y; sclosed := sclosed y;
                           wg_zero := wg_zero y; loop := LExited; inq := inq y; arrived := arrived y;
-                          wrapped := wrapped y |} (done_panics x)
+                          wrapped := wrapped y; refused := refused y |} (done_panics x)
     else set_sess st s (with_loop x LExited) false
   | Accept =>
     match backlog st with
